@@ -527,8 +527,8 @@ def run(res, tier):
                 lv[g_["name"]] = int(lit[0]["val"])
     if len(lv) != 2:
         raise AnalysisBroken("default upper working levels not found as integer constants")
-    n5 = decomp.check(facts, res, "C11.5.lists-and-levels", ORDERINGS[0], lv["TbfDefaultLastLevel"])
-    n5 += decomp.check_periodic(facts, res, "C11.5.lists-and-levels", ORDERINGS[0], lv["TbfDefaultLastLevelPeriodic"])
+    n5 = decomp.check(facts, res, "C11.5.lists-and-levels", ORDERINGS[0], lv["TbfDefaultLastLevel"], thorough=(tier == "thorough"))
+    n5 += decomp.check_periodic(facts, res, "C11.5.lists-and-levels", ORDERINGS[0], lv["TbfDefaultLastLevelPeriodic"], thorough=(tier == "thorough"))
     res.floor("C11.5.lists-and-levels", n5, 2000, "cell pairs of the model")
     res.instance("C11.5.lists-and-levels", "model size", "rules/decomp.py", "%d cell pairs examined (non periodic + periodic)" % n5)
     n, hits = literal_dimension(facts, res)
